@@ -31,12 +31,18 @@ OBLIGATIONS_FLAT = ['C01Flat.settled_exists', 'C01Flat.settled_unique', 'C01Flat
                     'C01Flat.exS2_text', 'C01Flat.exS2_check', 'C01.inline_concat', 'C01.inline_repeat', 'C01.inline_sext',
                     'C01.inline_smul', 'C01.gen_concatMSBF']
 
-# third proof stage (lean/Py4hwV/Props/C01Hier.lean): certified flattened texts, children with several leaves / assigns, one
-# level of structural hierarchy
+# third proof stage (lean/Py4hwV/Props/C01Hier.lean): certified flattened texts, children with several leaves / assigns,
+# structural hierarchy of any depth, Div / Mod under the side condition `divisor ≠ 0 at every settle`
 OBLIGATIONS_HIER = ['C01Hier.cert_run', 'C01Hier.cert_powerup', 'C01Hier.hier_elab', 'C01Hier.hier_text_run',
-                    'C01Hier.hier_text_powerup', 'FlatM.CertSrc.ok_of_check', 'FlatM.CertSrc.OK.seqCorr', 'FlatM.CertSrc.OK.cycOK',
-                    'FlatM.CertSrc.certSim_inv', 'FlatM.gkind_just', 'FlatM.HierSrc.flatten_scope', 'FlatM.HierSrc.step_sub',
-                    'FlatM.HierSrc.flatten_emitH']
+                    'C01Hier.hier_text_powerup', 'C01Hier.hier_text_run_divfree', 'C01Hier.hier_text_powerup_divfree',
+                    'C01Hier.exH_text', 'C01Hier.exH_check', 'C01Hier.exH_o2', 'C01Hier.exG_text', 'C01Hier.exG_check',
+                    'C01Hier.exG_outputs', 'C01Hier.exG_good',
+                    'FlatM.CertSrc.ok_of_check', 'FlatM.CertSrc.OK.seqCorr', 'FlatM.CertSrc.OK.cycOK', 'FlatM.CertSrc.certSim_inv',
+                    'FlatM.CertSrc.good_of_divFree', 'FlatM.gkind_just', 'FlatM.gate_val', 'FlatM.equal_val', 'FlatM.eqc_val',
+                    'FlatM.evalAssign_chain', 'FlatM.evalAssign_notchain', 'FlatM.inline_equal',
+                    'FlatM.HierSrc.flatten_mod', 'FlatM.HierSrc.step_sub', 'FlatM.HierSrc.up_ok', 'FlatM.HierSrc.lowN_ok',
+                    'FlatM.HierSrc.flatten_emitH', 'FlatM.goodRun_of_all', 'FlatM.bitsL_inst_prop', 'FlatM.bitsM_inst_prop',
+                    'FlatM.dm_inst_prop']
 
 # ---- flat-text stream: the elaboration theorem `C01Flat.text_run` is tied to the REAL text per design -------------------------------
 # For a design whose top block has only covered primitives and Regs as children the exporter below imports the description
@@ -174,13 +180,14 @@ class FlatBatch:
                 self.res.disagree('flat-text', dict(kind=m['kind'], desc=m['desc'], driver=o[:1500], text=m['text'][:2000], src=m['src'][:1500]))
 
 
-# ---- hier-text stream: `C01Hier.hier_text_run` (several leaves / assigns per child, one level of structural hierarchy) ----------
+# ---- hier-text stream: `C01Hier.hier_text_run` (several leaves / assigns per child, structural hierarchy of any depth) ----------
 class NotCovered(Exception):
     pass
 
 class HierExporter:
     """imports the description `FlatM.HierSrc` (lean/Py4hwV/Emit/Hier.lean) of a live design: a structural top block whose children are
-    inlinable children, Regs, or structural blocks of inlinable children and Regs.  Net ids are global (one per Wire object)."""
+    inlinable children (one or several simulator leaves, one or several assigns), Regs, or structural blocks of the same shape, to
+    any depth.  Net ids are global (one per Wire object); `leaf_objs` lists the simulator leaves in the order of `GKind.leaves`."""
 
     def __init__(self, d, tree):
         self.d, self.tree = d, tree
@@ -251,6 +258,36 @@ class HierExporter:
             n = [ch.children[x] for x in ('NandMid', 'NandX', 'NandY', 'NandR')]
             c = f'(gk xor2 {g(ch.a, ch.b, ch.r, n[0].r, n[1].r, n[2].r, n[0].mid, n[1].mid, n[2].mid, n[3].mid)})'
             leaves = [x for m in n for x in (m.children['And'], m.children['Not'])]
+        elif k == 'Equal':
+            x = ch.children['xor']
+            n = [x.children[q] for q in ('NandMid', 'NandX', 'NandY', 'NandR')]
+            leaves = [y for m in n for y in (m.children['And'], m.children['Not'])]
+            if 'not' in ch.children:                      # one-bit operands: Xor2 + Not
+                bits, ts, nmid = [], [], None
+                leaves.append(ch.children['not'])
+            else:                                         # Xor2 + BitsLSBF + Nor
+                bl, nr = ch.children['bits'], ch.children['nor']
+                orb = nr.children['Or']
+                kids = list(orb.children.values())
+                bits, ts, nmid = list(bl.bits), [q.r for q in kids[:-1]], orb.r
+                leaves += [bl] + kids + [nr.children['Not']]
+            c = (f"(gk equal {g(ch.a, ch.b, ch.r, x.r, n[0].r, n[1].r, n[2].r, n[0].mid, n[1].mid, n[2].mid, n[3].mid)} "
+                 f"({g(*bits)}) ({g(*ts)}) {nid(nmid)})")
+        elif k == 'EqualConstant':
+            v = nat(ch.v, 'constant')
+            kids = list(ch.children.values())
+            if len(kids) == 1:                            # one-bit operand: a Not (v == 0) or a Buf
+                bits, ns, ts = [], [], []
+                leaves = kids
+            else:                                         # BitsLSBF + Minterm (a Not per 0 bit of v, then And)
+                bl, mt = kids
+                w = len(bl.bits)
+                nots = {i: mt.children[f'n{i}'] for i in range(w) if (v >> i) & 1 == 0}
+                akids = list(mt.children['prod'].children.values())
+                bits, ts = list(bl.bits), [q.r for q in akids[:-1]]
+                ns = [nots[i].r if i in nots else None for i in range(w)]
+                leaves = [bl] + [nots[i] for i in sorted(nots)] + akids
+            c = f"(gk eqc {nid(ch.a)} {v} {nid(ch.r)} ({g(*bits)}) ({g(*ns)}) ({g(*ts)}))"
         elif k == 'Reg':
             c = (f"(reg {getInstanceName(ch)} {getVerilogModuleName(ch)} {int(ch.r is not None)} {int(ch.e is not None)} "
                  f"{nat(ch.reset_value, 'reset value')} {nid(ch.d)} {nid(ch.e)} {nid(ch.r)} {nid(ch.q)})")
@@ -260,7 +297,8 @@ class HierExporter:
         self.leaf_objs += leaves
         return c
 
-    def mod(self, m, mname, child_fn):
+    def mod(self, m, mname):
+        """-> (s-expression of the module, nesting depth of its children)"""
         from py4hw.rtl_generation import getWireNames, getPortName
         from py4hw.base import Wire
         if m.inOutPorts:
@@ -274,6 +312,10 @@ class HierExporter:
                 names.append((self.nid(w), n))
         ins = [(getPortName(p), self.nid(p.wire)) for p in m.inPorts]
         outs = [(getPortName(p), self.nid(p.wire)) for p in m.outPorts]
+        pn = [n for n, _ in ins + outs]
+        if len(set(pn)) != len(pn):
+            # two ports of one block carry the same name (the module header declares it twice): outside `HierSrc.modsOKb`
+            raise NotCovered('duplicate port name in a module header')
         tmod = [x for x in self.tree[1:] if x[1] == mname]
         if not tmod:
             raise NotCovered('module not in text')
@@ -282,33 +324,33 @@ class HierExporter:
             locals_ = [n2i[it[1]] for it in tmod[0][4][1:] if it[0] == 'wire']
         except KeyError:
             raise NotCovered('declared wire unknown')
-        children = [child_fn(ch) for ch in m.children.values()]
+        children = [self.hchild(ch) for ch in m.children.values()]
         L = lambda xs: ' '.join(str(x) for x in xs)
         return (f"(mod {mname} (names {' '.join(f'({i} {n})' for i, n in names)}) (inputs {' '.join(f'({n} {i})' for n, i in ins)}) "
-                f"(outputs {' '.join(f'({n} {i})' for n, i in outs)}) (locals {L(locals_)}) (children {' '.join(children)}))")
+                f"(outputs {' '.join(f'({n} {i})' for n, i in outs)}) (locals {L(locals_)}) (children {' '.join(c for c, _ in children)}))",
+                max([dp for _, dp in children], default=0))
 
     def hchild(self, ch):
         from py4hw.rtl_generation import getInstanceName, getVerilogModuleName
         try:
-            return self.gchild(ch)
+            return self.gchild(ch), 0
         except NotCovered as e:
             if not str(e).startswith('kind '):
                 raise
             if ch.isPrimitive() or not ch.children:
                 raise
-            kinds_before = len(self.leaf_objs)
             try:
-                body = self.mod(ch, getVerilogModuleName(ch), self.gchild)
+                body, dp = self.mod(ch, getVerilogModuleName(ch))
             except NotCovered as e2:
                 raise NotCovered(str(e) + ' / inside: ' + str(e2))
-            return f'(sub {getInstanceName(ch)} {body})'
+            return f'(sub {getInstanceName(ch)} {body})', dp + 1
 
     def export(self):
         from py4hw.rtl_generation import getVerilogModuleName
         top = self.d['top']
         if not top.children:
             raise NotCovered('no children')
-        topm = self.mod(top, getVerilogModuleName(top, noInstanceNumber=True), self.hchild)
+        topm, self.depth = self.mod(top, getVerilogModuleName(top, noInstanceNumber=True))
         sim = self.d['hw'].getSimulator()
         pos = {id(l): i for i, l in enumerate(self.leaf_objs)}
         order = []
@@ -317,7 +359,7 @@ class HierExporter:
                 raise NotCovered('propagatable outside the design: ' + type(l).__name__)
             order.append(pos[id(l)])
         L = lambda xs: ' '.join(str(x) for x in xs)
-        return f"(hsrc {self.d['hw'].clockDriver.name} (widths {L(self.widths)}) {topm} (order {L(order)}))"
+        return f"(hsrc {self.depth} {self.d['hw'].clockDriver.name} (widths {L(self.widths)}) {topm} (order {L(order)}))"
 
 
 class HierBatch:
@@ -336,7 +378,7 @@ class HierBatch:
             self.res.hist('hier_text_' + stream, 'export-error:' + type(e).__name__)
             return
         self.lines += ['design ' + vparse.sexp(tree), 'hsrc ' + src, 'check']
-        self.meta.append(dict(stream=stream, kind=d['kind'], desc=d['desc'], text=text, src=src, levels=2 if '(sub ' in src else 1))
+        self.meta.append(dict(stream=stream, kind=d['kind'], desc=d['desc'], text=text, src=src, levels=int(src.split()[1]) + 1))
 
     def run(self):
         if not self.lines:
@@ -417,6 +459,13 @@ def patch_tree(tree, tags):
                     if v >= (1 << wa):
                         e[1][3][3] = (1 if v != 0 else 0) if wa == 1 else v % (1 << wa)
                         used.add('equalconst-oversized')
+                elif e[0] == 'tern' and e[1][0] == 'bin' and e[1][1] == 'eq' and e[1][2][0] == 'id' and e[1][3][0] == 'un' \
+                        and e[1][3][1] == 'neg' and e[1][3][2][0] == 'num':
+                    # a NEGATIVE constant (emitted `a == -v`): does not fit the operand width either
+                    wa = w.get(e[1][2][1], 1)
+                    v = -e[1][3][2][3]
+                    e[1][3] = ['num', -1, 1, (1 if v != 0 else 0) if wa == 1 else v % (1 << wa), 1]
+                    used.add('equalconst-oversized')
             if it[0] == 'assign' and 'equal-wide-result' in tags:
                 e = it[2]
                 tgt = it[1][1]
@@ -442,7 +491,7 @@ def features(d):
             if lf.reset_value != 0:
                 tags.add('reg-powerup')
     def walk(o):
-        if type(o).__name__ == 'EqualConstant' and o.v >= (1 << o.a.getWidth()):
+        if type(o).__name__ == 'EqualConstant' and (o.v >= (1 << o.a.getWidth()) or o.v < 0):
             tags.add('equalconst-oversized')
         if type(o).__name__ == 'Equal' and (o.r.getWidth() > 1 or o.a.getWidth() != o.b.getWidth()):
             tags.add('equal-irregular')
@@ -580,7 +629,7 @@ def main(res, tier, rng, replay):
         clk = d['hw'].clockDriver.name
         if kind in ('plan', 'lib'):
             fb.add(d, tree, text, kind)
-        if kind in ('plan', 'lib', 'hier'):
+        if kind in ('plan', 'lib', 'hier', 'c07', 'c08'):
             hb.add(d, tree, text, kind)
         vb.add(text, top, clk, hist, list(d['outputs']), label=len(jobs), tree=tree)
         # power-up drives every input with 0: for Div/Mod/SignedDiv that is a division by zero (excluded by the property)
@@ -614,14 +663,14 @@ def main(res, tier, rng, replay):
     res.cov['flat_theorem_coverage_of_plan_stream'] = (f'{cov_n}/{tot} plan designs are covered by C01Flat.text_run (children all in Kind ∪ Reg, '
                                                        f'parsed text == FlatSrc.emit, FlatSrc.check); reasons of the others: histogram flat_text_plan')
     hb.run()
-    for stream in ('plan', 'lib', 'hier'):
+    for stream in ('plan', 'lib', 'hier', 'c07', 'c08'):
         hh = res.cov['histograms'].get('hier_text_' + stream, {})
         tot = sum(hh.values())
         cov_n = sum(v for k, v in hh.items() if k.startswith('covered'))
         res.cov[f'hier_theorem_coverage_of_{stream}_stream'] = (
-            f'{cov_n}/{tot} {stream} designs are covered by C01Hier.hier_text_run (children of the top block: inlinable children incl. Bits/Nand2/'
-            f'Nor2/Xor2, Reg, or structural blocks of such children; parsed text == HierSrc.emit, HierSrc.check); reasons of the others: '
-            f'histogram hier_text_{stream}')
+            f'{cov_n}/{tot} {stream} designs whose text was generated and parsed are covered by C01Hier.hier_text_run (structural hierarchy of '
+            f'any depth; leaves: every inlinable primitive incl. Bits*/And/Or/Nor/Nand2/Nor2/Xor2/Equal/EqualConstant/Div/Mod, and Reg; '
+            f'parsed text == HierSrc.emit, HierSrc.check); reasons of the others: histogram hier_text_{stream}')
     try:
         results = vb.run()
     except ToolFailure as e:
